@@ -122,6 +122,11 @@ def run_task(task):
         bad = [o for o in res['obligations'] if o['status'] in ('sat', 'failed')]
         if bad or res['exception']:
             res['replay'] = _replay(prop, name, params, bad, res['exception'], seed, opts.get('replay_random', 2), res.get('exception_where'))
+        elif res['error'] and not opts.get('noprobe'):
+            # the symbolic run ended without a verdict (unmodelled call, unexpected fork, budget): probe the unmodified code on a few random
+            # inputs with the concrete oracles of the same scenario -- a failure there is a real, replayable violation (found by sampling, and
+            # reported as such); no failure leaves the task a harness error
+            res['probe'] = _probe(prop, name, params, seed, 3)
         # ---- translation validation of the shim on this scenario (sampled)
         if opts.get('tv') and not res['error'] and not res['exception'] and not bad:
             res['tv'] = _tv(prop, name, params, R, sc, seed)
@@ -203,6 +208,16 @@ def _replay(prop, name, params, bad, exception, seed, n_random=2, where=None):
             if b in want and b not in confirmed:
                 confirmed[b] = path
                 keep = True
+        if r.get('failed') and not keep:
+            # the detailed symbolic obligation has no concrete counterpart of the same name, but on the solver's inputs the unmodified
+            # code fails a (coarser) obligation of the same scenario against the dense oracle: that is a reproduced violation of the
+            # property; it is reported under the symbolic obligation, with the concrete failure named in the replay output
+            have = set(_base(o['label']) for o in r.get('obligations', []))
+            for o in bad:
+                b = _base(o['label'])
+                if b not in confirmed and b not in have and (o.get('group') is None or o.get('group') not in have):
+                    confirmed[b] = path
+                    keep = True
         if exception and r.get('exception') and not exc_confirmed and (r['exception'].split(':')[0] == exception.split(':')[0] or (where and r.get('exception_where') == where)):
             exc_confirmed = path
             keep = True
@@ -219,6 +234,27 @@ def _replay(prop, name, params, bad, exception, seed, n_random=2, where=None):
     if exception and not exc_confirmed:
         out['unconfirmed'].append('exception ' + exception)
     return out
+
+
+def _probe(prop, name, params, seed, n):
+    found = []
+    for i in range(n):
+        path = _replay_file(prop, name, params, {}, 'probe', seed + 100 + i)
+        try:
+            r = _run_replay(path)
+        except Exception:
+            r = {'machinery_error': 'probe failed'}
+        if 'machinery_error' in r or r.get('harness_error'):
+            os.remove(path)
+            continue
+        if r.get('failed'):
+            found.append({'label': _base(r['failed'][0]), 'replay': path, 'detail': 'concrete probe (random inputs) after an undecided symbolic run'})
+            break
+        if r.get('exception') and r.get('exception_where'):
+            found.append({'label': 'exception ' + r['exception'].split(':')[0], 'replay': path, 'detail': r['exception'][:200]})
+            break
+        os.remove(path)
+    return found
 
 
 def _tv(prop, name, params, R, sc, seed):
@@ -472,6 +508,12 @@ def report(prop, tier, seed, results, meta, wall, scens):
                         violations.append((r['scenario'], r['params'], b, conf[b]['replay'], o.get('detail')))
                 else:
                     inconclusive.append('%s %s: %s (counterexample not reproduced on the real code)' % (r['scenario'], json.dumps(r['params']), o['label']))
+        for pr in r.get('probe') or []:
+            k = match_known(known, prop, r['scenario'], r['params'], pr['label'])
+            if k:
+                known_hits.setdefault(k['id'], k)
+            else:
+                violations.append((r['scenario'], r['params'], pr['label'], pr['replay'], pr['detail']))
         if r.get('exception'):
             lab = 'exception ' + r['exception'].split(':')[0]
             if lab in conf:
